@@ -106,7 +106,9 @@ pub fn exec_history_named(
                     } else {
                         // (5: listing a directory fails — the walk must give up, never treat the
                         // subtree as empty, which would read as "deleted on this side")
-                        let k = if *kind == 5 { OpKind::Readdir } else { [OpKind::Write, OpKind::Rename, OpKind::Mkdir, OpKind::Fsync][*kind as usize % 4] };
+                        // (6: removing a file fails — a delete that did not happen must not be
+                        // recorded or reported as done)
+                        let k = if *kind == 5 { OpKind::Readdir } else if *kind == 6 { OpKind::Unlink } else { [OpKind::Write, OpKind::Rename, OpKind::Mkdir, OpKind::Fsync][*kind as usize % 4] };
                         let e = [EIO, ENOSPC, EACCES][(*nth as usize) % 3];
                         cfg.faults.push(Fault::FailOp {
                             target: ProcSel::Role("bisync".into()),
@@ -499,6 +501,14 @@ impl Check for C06 {
             for st in &mut hist.steps {
                 if matches!(st, Step::Bisync) && r.below(3) == 0 {
                     *st = Step::BisyncFault { kind: 4, nth: r.range(1, 8) as u32 };
+                }
+            }
+        } else if r.below(4) == 0 {
+            // ... or one failing unlink: the run may stop with an error, but if it reports
+            // completion (exit 0) every clause still has to hold
+            for st in &mut hist.steps {
+                if matches!(st, Step::Bisync) && r.below(3) == 0 {
+                    *st = Step::BisyncFault { kind: 6, nth: r.range(1, 3) as u32 };
                 }
             }
         }
